@@ -21,12 +21,12 @@ RULE = ('cases are (error handler kind, route with 0-3 scripted middlewares and 
         'after every failure')
 ASSUMPTIONS = ['only Exception subclasses (SystemExit/KeyboardInterrupt/GeneratorExit are outside "any Exception")',
                'a render_error that returns a non-response is a mis-configured handler and is not judged (O8)']
-REQUIRED_REACH = ['handler:default', 'handler:contextual', 'handler:reraise', 'handler:broken-render-error',
+REQUIRED_REACH = ['handler:default', 'handler:contextual', 'handler:reraise', 'handler:broken-render-error', 'handler:render-error-raises-http',
                   'handler:render-error-returns-other', 'outcome:500-from-exception', 'outcome:500-from-nonresponse',
                   'outcome:http-raised', 'outcome:http-returned', 'outcome:reraised-original', 'fallback-compared',
                   'history:probes-compared', 'deviation-ran', 'msg:surrogate', 'msg:badstr', 'msg:badrepr', 'msg:huge']
 NSHARDS = 16
-HANDLERS = ['default', 'contextual', 'reraise', 'broken-render-error', 'render-error-returns-other']
+HANDLERS = ['default', 'contextual', 'reraise', 'broken-render-error', 'render-error-raises-http', 'render-error-returns-other']
 ACCEPTS = [None, 'text/html', 'application/json', 'application/xml', '*/*', 'garbage;;q=', 'text/plain',
            'text/html;q=0.1, application/json']
 RETURNS = ['Response', 'str', 'None', 'int', 'dict', 'list', 'bytes', 'float']
@@ -174,6 +174,11 @@ def make_handler(kind):
         return errors.ContextualErrorHandler()
     if kind == 'reraise':
         return errors.ErrorHandler(reraise_uncaught=True)
+    if kind == 'render-error-raises-http':
+        class MissingTemplate(errors.ErrorHandler):
+            def render_error(self, request, _error):
+                raise errors.NotFound('no template for error pages')      # fails with an HTTP error of its own
+        return MissingTemplate()
     if kind == 'broken-render-error':
         class BrokenRender(errors.ErrorHandler):
             def render_error(self, request, _error):
@@ -319,7 +324,7 @@ def judge(sh, case, record=True):
     elif act[0] == 'return_http':
         sh.hit('outcome:http-returned')
     # a failing render_error must fall back to the default rendering of the same error
-    if case['handler'] == 'broken-render-error' and ex.status >= 400:
+    if case['handler'] in ('broken-render-error', 'render-error-raises-http') and ex.status >= 400:
         ctrl, _ = send(app_for('default'), case)
         sh.hit('fallback-compared')
         if (ctrl.status, ctrl.header('Content-Type'), norm_body(ctrl.body)) != (ex.status, ex.header('Content-Type'), norm_body(ex.body)):
